@@ -85,7 +85,25 @@ def replay_case(chk: core.Check, case: dict, units) -> None:
         for U, val, emb in embeddings:
             exact_unit = U in (m.Unit.Inch, m.Unit.Foot, m.Unit.Yard)
             if not exact_unit and q2 % 2 == 0:
-                continue  # metric units do not round-trip exactly: only queries strictly between row values
+                # metric units do not round-trip exactly, so "on a row" is asked the way a caller would: the number the row itself
+                # READS in that unit is handed back to the helpers that compare in the unit of the question - the first row reading
+                # at least that number is that row
+                if emb == "plain" and (q2 // 2) in col:
+                    rows_ = [impl.make_row(time=float(i), distance=U(val(2 * v)), flag=_flag(i, q2 + n)) for i, v in enumerate(col)]
+                    hr_ = m.HitResult(shot, rows_, False)
+                    j = col.index(q2 // 2)
+                    qq = rows_[j].distance >> U
+                    chk.stratum("row_value_read_in_a_metric_unit_handed_back")
+                    for name, fn, want_ in (("helpers.find_index_of_point_for_distance", lambda: H.find_index_of_point_for_distance(hr_, qq, U), j),
+                                            ("helpers.find_time_for_distance_in_shot", lambda: H.find_time_for_distance_in_shot(hr_, qq, U), float(j)),
+                                            ("helpers.find_first_index_matching_condition", lambda: H.find_first_index_matching_condition(hr_, lambda e: (e.distance >> U) >= qq), j)):
+                        o = impl.outcome(fn)
+                        chk.count(1, ("dist-readback", tuple(col), q2, name, int(U)))
+                        if o[0] != "ok":
+                            bad("C20.WrongException", name + " (row value read back)", o[1], U)
+                        elif o[1] != want_:
+                            bad("C20.WrongIndex", name + " (row value read back)", o[1], U)
+                continue
             rows = [impl.make_row(time=float(i), distance=U(val(2 * v)), flag=_flag(i, q2 + n)) for i, v in enumerate(col)]
             if emb == "tight":
                 chk.stratum("rows_and_queries_one_ulp_apart")
@@ -228,7 +246,7 @@ def run(chk: core.Check, replay=None) -> None:
         chk.traces += 1
     for c in cases[:: max(1, len(cases) // 5)][:5]:
         chk.sample(c)
-    chk.require_strata(["dist", "time", "near", "apex", "empty", "repeats", "sentinel", "rows_in_mixed_display_units", "rows_and_queries_one_ulp_apart", "near_midpoint_of_decimal_times", "near_midpoint_of_decimal_times_later_row_nearer", "another_denser_result_looked_up_just_before", "same_result_asked_farther_out_first"])
+    chk.require_strata(["dist", "time", "near", "apex", "empty", "repeats", "sentinel", "rows_in_mixed_display_units", "rows_and_queries_one_ulp_apart", "near_midpoint_of_decimal_times", "near_midpoint_of_decimal_times_later_row_nearer", "another_denser_result_looked_up_just_before", "same_result_asked_farther_out_first", "row_value_read_in_a_metric_unit_handed_back"])
     chk.rule.append("every non-decreasing sequence (len<=%d over 0..%d) x every (half-)integer query x every entry point, "
                     "generated by TLC from Gen_Lookup; non-trivial = sequence length >= 2; distinct by (op, sequence, "
                     "query, entry point, unit)" % (maxlen, maxval))
